@@ -14,6 +14,7 @@ def generate(tier, rng):
         for k, v in enumerate(e.variants):
             v.ci = [None, True, False][(i + k) % 3]
     enums += strcorpus.build_soup(rng, tier, 'C02', derives=derives, feats=['parse', 'names', 'roundtrip'], n=30 if tier == 'quick' else 300)
+    enums += strcorpus.shadowed_by_disabled('C02', derives, ['parse', 'names', 'roundtrip'])
     info = strcorpus.query_model(enums)
     c = Corpus()
     for e in enums:
